@@ -274,6 +274,48 @@ theorem lifeAccepted_safe (A) (fuel : Nat) : wp A (lifeAccepted fuel) (fun _ o =
   · simp only [Bool.not_true, Bool.false_eq_true, if_false, wp_bind, open_, wp]
     intro s h2 _; simpa using connInit_wp A fuel s 0 h2
 
+theorem userCloseLoop_wp (A) (fuel : Nat) : ∀ (c : NetFD) (o : Own) (ran : Bool), ConnInv c o ran →
+    wp A (userCloseLoop fuel ran c) (fun _ o' => o' = Own.empty) o := by
+  have last : ∀ (c : NetFD) (o : Own) (ran : Bool), ConnInv c o ran →
+      wp A (if ran then (pure () : M Unit) else do let _ ← c.close; pure ()) (fun _ o' => o' = Own.empty) o := by
+    intro c o ran inv
+    cases ran
+    · simp only [Bool.false_eq_true, if_false, bind_def, wp_bind]
+      apply NetFD.close_wp
+      · intro hc
+        refine ⟨by simp [inv.open_ hc], inv.fd_gt, ?_⟩
+        simp only [pure_def, wp]
+        rw [inv.open_ hc]; exact Own.set_cancel _ _ _ rfl
+      · intro hc; simp only [pure_def, wp]; exact inv.closed_ hc
+    · simp only [if_true, pure_def, wp]
+      exact inv.closed_ (inv.ran_ rfl)
+  induction fuel with
+  | zero => intro c o ran inv; simpa [userCloseLoop] using last c o ran inv
+  | succ n ih =>
+    intro c o ran inv
+    simp only [userCloseLoop, bind_def, wp_bind]
+    apply wp_ask; intro b _; cases b
+    · simpa using last c o ran inv
+    · simp only [Bool.not_true, Bool.false_eq_true, if_false, wp_bind]
+      apply NetFD.close_wp
+      · intro hc
+        refine ⟨by simp [inv.open_ hc], inv.fd_gt, ?_⟩
+        apply ih
+        exact ⟨inv.fd_gt, by simp, by intro _; rw [inv.open_ hc]; exact Own.set_cancel _ _ _ rfl, by simp⟩
+      · intro hc
+        apply ih
+        exact ⟨inv.fd_gt, by simp, by intro _; exact inv.closed_ hc, by simp⟩
+
+theorem lifeAcceptConn_safe (A) (fuel : Nat) : wp A (lifeAcceptConn fuel) (fun _ o => o = Own.empty) Own.empty := by
+  unfold lifeAcceptConn
+  simp only [bind_def, wp_bind]
+  apply wp_ask; intro b _; cases b
+  · simp [wp]
+  · simp only [Bool.not_true, Bool.false_eq_true, if_false, wp_bind, open_, wp]
+    intro s h2 _
+    exact userCloseLoop_wp A fuel { fd := s, tag := 0 } _ false
+      ⟨h2, fun _ => rfl, fun h => absurd rfl h, fun h => by simp at h⟩
+
 theorem lifeFDConn_safe (A) (fd fuel : Nat) : wp A (lifeFDConn fd fuel) (fun _ o => o = Own.empty) Own.empty := by
   unfold lifeFDConn
   simp only [bind_def, wp_bind, adopt_, wp]
@@ -517,6 +559,7 @@ theorem kind_safe (A) (k : Kind) : wp A k.prog (fun _ _ => True) Own.empty := by
   | dialTCP f => exact wp_mono A _ _ _ _ (fun _ _ _ => trivial) (lifeDialTCP_safe A f)
   | dialUnix f => exact wp_mono A _ _ _ _ (fun _ _ _ => trivial) (lifeDialUnix_safe A f)
   | accepted f => exact wp_mono A _ _ _ _ (fun _ _ _ => trivial) (lifeAccepted_safe A f)
+  | acceptConn f => exact wp_mono A _ _ _ _ (fun _ _ _ => trivial) (lifeAcceptConn_safe A f)
   | fdConn fd f => exact wp_mono A _ _ _ _ (fun _ _ _ => trivial) (lifeFDConn_safe A fd f)
   | createListener f => exact lifeCreateListener_wp A f (fun _ => True) trivial (Or.inr fun _ => trivial)
   | convertListener l f => exact lifeConvertListener_wp A l f (fun _ => True) trivial (Or.inr fun _ => trivial)
@@ -528,6 +571,7 @@ theorem kind_complete (k : Kind) : wp noLeakAssumptions k.prog (fun _ o => o = O
   | dialTCP f => exact lifeDialTCP_safe _ f
   | dialUnix f => exact lifeDialUnix_safe _ f
   | accepted f => exact lifeAccepted_safe _ f
+  | acceptConn f => exact lifeAcceptConn_safe _ f
   | fdConn fd f => exact lifeFDConn_safe _ fd f
   | createListener f => exact lifeCreateListener_wp _ f (fun o => o = Own.empty) rfl (Or.inl rfl)
   | convertListener l f => exact lifeConvertListener_wp _ l f (fun o => o = Own.empty) rfl (Or.inl rfl)
